@@ -2,19 +2,13 @@ import Gtree.Lemmas.ParseAny
 import Gtree.Lemmas.ParseDoc
 import Gtree.Lemmas.Build
 import Gtree.Model.Generate
+import Gtree.Spec.MalformedErr
 /-
   The generator rejects a document exactly at its first malformed row (Spec/Malformed.lean), with the
   error of that row's class: a simulation between the generator's state (parser state + stack of open
   nodes) and the declarative notation.
 -/
 namespace Gtree
-
-def toGErr : Bytes × Malformation → GErr
-  | (r, .noBullet) => .format r
-  | (r, .badIndent) => .format r
-  | (r, .jump) => .format r
-  | (_, .emptyText) => .emptyText
-  | (_, .orphan) => .nilStack
 
 /-- the generator's state stands for the notation -/
 structure Rel (g : GState) (n : Notation) : Prop where
